@@ -1,6 +1,6 @@
-(* Theory/Reconf52Refute.v -- C52: clauses of the property that are FALSE of the faithful model of
-   Reconfigure.apply (each witness is in the corpus of harness/props/c52.py and reproduces on the real
-   code), and what a refusal leaves behind. *)
+(* Theory/Reconf52Refute.v -- C52: the clause of the property that is still FALSE of the faithful model of
+   Reconfigure.apply (tags; witness in the corpus of harness/props/c52.py, reproduces on the real code),
+   the former witnesses of repaired defects as regression examples, and what a refusal leaves behind. *)
 From Coq Require Import List Bool Arith String Lia.
 Import ListNotations.
 From BV Require Import Lib.Obs Lib.Dag Theory.DagFacts Model.Reconf52 Theory.Reconf52Wf Theory.Reconf52Pres
@@ -12,32 +12,25 @@ Open Scope list_scope.
 Definition g0 : dag := [[]; [0]; [1]; [1]; [2; 3]; [4]].
 Definition all0 : list revid := [0; 1; 2; 3; 4; 5].
 
-(* W1: a tree with a pending merge (r3) inside a shared repository is made standalone: only the
-   ancestry of the tip (r2) is fetched into the new repository *)
+(* W1 (regression, repaired by 300cbf1): a tree with a pending merge (r3) inside a shared repository is
+   made standalone: the pending merge is fetched together with the tip's ancestry *)
 Definition w1 : world :=
   mkW g0 None (Some (mkRepo true true all0)) (BLocal (mkLB (Some 2) [] None None None))
       (Some (mkTree [2; 3] [])) None None None.
 
-Theorem pending_merge_revisions_refuted :
-  exists w w' tr m, reconfigure TStandalone false None w = Ok w' /\ w_tree w = Some tr /\ w_tree w' = Some tr
-                    /\ In m (t_parents tr) /\ memb m (eff_revs w) = true /\ memb m (eff_revs w') = false.
-Proof.
-  exists w1. eexists. exists (mkTree [2; 3] []), 3. vm_compute. repeat split; auto.
-Qed.
+Example pending_merge_witness_now_kept :
+  exists w', reconfigure TStandalone false None w1 = Ok w' /\ w_tree w' = Some (mkTree [2; 3] [])
+             /\ memb 3 (eff_revs w') = true /\ memb 5 (eff_revs w') = false.
+Proof. eexists. vm_compute. repeat split. Qed.
 
-(* W2: a branch reference at the root of a shared repository that holds the referenced branch's
-   revisions: to_use_shared destroys the repository without fetching from it *)
+(* W2 (regression, repaired by ea08d31): a branch reference at the root of a shared repository that holds
+   the referenced branch's revisions, nothing above: to_use_shared is refused before anything is destroyed *)
 Definition w2 : world :=
   mkW g0 (Some (mkRepo true true all0)) None (BRef 0) None (Some (mkOB (Some 5) [(0, 1)] None)) None None.
 
-Theorem no_revision_lost_refuted :
-  exists w w' p r, factory w TUseShared = inl p /\ fetch_guard p w = false
-                   /\ reconfigure TUseShared false None w = Ok w'
-                   /\ memb r (all_revs w) = true /\ memb r (all_revs w') = false
-                   /\ eff_tip w = Some (Some 5) /\ eff_revs w' = [].
-Proof.
-  exists w2. eexists. eexists. exists 5. vm_compute. repeat split.
-Qed.
+Example use_shared_witness_now_refused :
+  reconfigure TUseShared false None w2 = Fail "NotBranchError" w2.
+Proof. vm_compute. reflexivity. Qed.
 
 (* W3: the location's tag 0 -> r2 clashes with the new reference's tag 0 -> r1: the reference wins *)
 Definition w3 : world :=
@@ -50,16 +43,16 @@ Theorem preserves_tags_refuted :
                /\ tag_lookup 0 (eff_tags w) = Some 2 /\ tag_lookup 0 (eff_tags w') = Some 1.
 Proof. exists w3. eexists. vm_compute. repeat split. Qed.
 
-(* W4: to_checkout with nothing to bind to: the working tree has been created when
-   _select_bind_location raises *)
+(* W4 (regression, repaired by 00bc7de): to_checkout with nothing to bind to is refused before the
+   working tree is created *)
 Definition w4 : world :=
   mkW g0 (Some (mkRepo false true [0; 1; 2; 3; 4])) None (BLocal (mkLB (Some 4) [(2, 0)] None None None))
       None None None (Some (mkOB (Some 1) [] (Some [0; 1]))).
 
-Theorem refusal_leaves_state_refuted :
-  exists w w', reconfigure TCheckout false None w = Fail "NoBindLocation" w'
-               /\ w_tree w = None /\ w_tree w' = Some (mkTree [4] []).
-Proof. exists w4. eexists. vm_compute. repeat split. Qed.
+Example bind_witness_now_refused_early :
+  reconfigure TCheckout false None w4 = Fail "NoBindLocation" w4
+  /\ reconfigure TCheckout true None w4 = Fail "NoBindLocation" w4.
+Proof. vm_compute. split; reflexivity. Qed.
 
 (* refusals by a factory or by _check change nothing *)
 Theorem refusal_by_factory_unchanged t force nb w e :
@@ -69,6 +62,23 @@ Proof. intros H. unfold reconfigure. rewrite H. reflexivity. Qed.
 Theorem refusal_by_check_unchanged t nb w p e :
   factory w t = inl p -> check p w nb = Some e -> reconfigure t false nb w = Fail e w.
 Proof. intros Hf Hc. unfold reconfigure, apply. rewrite Hf, Hc. reflexivity. Qed.
+
+(* the branch to bind to is looked for before anything is changed (with or without force) *)
+Theorem refusal_by_bind_unchanged t nb w p e :
+  factory w t = inl p -> check p w nb = None -> pre_bind p w nb = Some e ->
+  forall force, reconfigure t force nb w = Fail e w.
+Proof.
+  intros Hf Hc Hb force. unfold reconfigure, apply. rewrite Hf, Hb.
+  destruct force; [reflexivity|]. rewrite Hc. reflexivity.
+Qed.
+
+(* ... and binding itself cannot fail afterwards *)
+Theorem bind_step_cannot_refuse p w0 nb w b :
+  pre_bind p w0 nb = None -> w_branch w = BLocal b -> exists w', step_bind p w0 nb w = Ok w'.
+Proof.
+  unfold pre_bind, step_bind. intros Hp Hb. destruct (p_bind p); [|eauto].
+  destruct (select_bind w0 nb); [|discriminate Hp]. rewrite Hb. eauto.
+Qed.
 
 (* uncommitted changes are never destroyed without force *)
 Theorem uncommitted_changes_refused t nb w p tr :
@@ -94,7 +104,7 @@ Example tip_example :
   exists w', reconfigure TLightweight false (Some 2) w3 = Ok w' /\ eff_tip w3 = Some (Some 4) /\ eff_tip w' = Some (Some 4).
 Proof. eexists. vm_compute. repeat split. Qed.
 Example no_loss_example :
-  exists p w', factory w3 TLightweight = inl p /\ fetch_guard p w3 = true
+  exists p w', factory w3 TLightweight = inl p
                /\ reconfigure TLightweight false (Some 2) w3 = Ok w' /\ p_destroy_repository p = true
                /\ subsetb (all_revs w3) (all_revs w') = true.
 Proof. eexists. eexists. vm_compute. repeat split. Qed.
